@@ -3,6 +3,7 @@ import FsicModel.Alias
 import FsicModel.AliasClass
 import FsicModel.AliasFail
 import FsicModel.AliasCtor
+import FsicModel.AliasLabel
 /-
 Executable instance of M8 (alias part) for the correspondence check.  Names are strings; a stored series is an
 array of integers (the harness writes distinct integers, so a cell identifies the write that produced it);
@@ -379,11 +380,78 @@ def handleCtorRoute (j : Json) : R String := do
       | some r => pure (initStr n r)
     | _ => throw s!"bad route {route}"
 
+/-! label-indexed access on a span of names (`FsicModel/AliasLabel.lean`) -/
+
+abbrev LP := LPay String Int
+
+def optLabel (j : Json) (k : String) : R (Option String) :=
+  match optObj j k with
+  | none => pure none
+  | some .null => pure none
+  | some v => do pure (some (← v.getStr?))
+
+def parseLIx (j : Json) : R LP :=
+  match optObj j "l" with
+  | some l => do pure (.ix (.label (← l.getStr?)))
+  | none => do
+    let st := match optObj j "st" with
+      | some v => v.getNat?.toOption.getD 1
+      | none => 1
+    pure (.ix (.slice (← optLabel j "a") (← optLabel j "b") st))
+
+def parseLVal (j : Json) : R LP :=
+  match j with
+  | .arr a => do pure (.list (← a.toList.mapM (·.getInt?)))
+  | v => do pure (.scalar (← v.getInt?))
+
+def parseLOp (j : Json) : R (Op String LP) := do
+  let k ← str j "op"
+  match k with
+  | "getitem" => pure (.getItem (← str j "n"))
+  | "setitem" => pure (.setItem (← str j "n") (← parseLVal (← obj j "v")))
+  | "getattr" => pure (.getAttr (← str j "n"))
+  | "setattr" => pure (.setAttr (← str j "n") (← parseLVal (← obj j "v")))
+  | "getat" => pure (.getAt (← str j "n") (← parseLIx (← obj j "ix")))
+  | "setat" => pure (.setAt (← str j "n") (← parseLIx (← obj j "ix")) (← parseLVal (← obj j "v")))
+  | _ => throw s!"bad op {k}"
+
+def lpStr : LP → String
+  | .scalar i => "i:" ++ toString i
+  | .list l => "l:" ++ intsStr l
+  | .ix _ => "ix"
+
+def lresStr : Res (List Int) LP → String
+  | .done => "ok"
+  | .series v => "l:" ++ intsStr v
+  | .value p => lpStr p
+  | .err e => errStr e
+
+/-- kind `alias_label_history`: `{m, span, vars: [[name, [ints]]], strict, all, ops}` → `results…|series`
+    (`all` = run the variant that resolves every `str` of the key, which is NOT the code). -/
+def handleLabelHistory (j : Json) : R String := do
+  let m ← parsePairs (← obj j "m")
+  let span ← parseNames (← obj j "span")
+  let strict ← bool j "strict"
+  let all := match optObj j "all" with
+    | some (.bool b) => b
+    | _ => false
+  let vars ← (← arr j "vars").toList.mapM fun nv => do
+    match (← nv.getArr?).toList with
+    | [n, v] => pure (← n.getStr?, ← (← v.getArr?).toList.mapM (·.getInt?))
+    | _ => throw "name/series pair expected"
+  let ops ← (← arr j "ops").toList.mapM parseLOp
+  match instanceAliases m with
+  | .valueError => pure "ctor:ValueError"
+  | .returned a =>
+    let step := if all then aliasedAll span a else aliased (labelOps span) a
+    let (s', rs) := run step ⟨strict, vars, []⟩ ops
+    pure (joinWith " " (rs.map lresStr) ++ "|" ++ joinWith ";" (s'.vars.map fun nv => nv.1 ++ "=" ++ intsStr nv.2))
+
 end Drv.Alias
 
 namespace Drv.Alias
 def handlers : List (String × (Lean.Json → Except String String)) :=
   [("alias_shorten", handleShorten), ("alias_prefcheck", handlePrefCheck), ("alias_rename", handleRename),
    ("alias_history", handleHistory), ("alias_xhistory", handleXHistory), ("alias_rename_opts", handleRenameOpts), ("alias_hier", handleHier),
-   ("alias_ctor_route", handleCtorRoute)]
+   ("alias_ctor_route", handleCtorRoute), ("alias_label_history", handleLabelHistory)]
 end Drv.Alias
